@@ -472,7 +472,7 @@ func implLoop(h Loop) (obs []LObs, slow bool, crash string) {
 	if panicked {
 		crash = msg
 	}
-	return obs, r.slow || time.Since(start) > 2*time.Second, crash
+	return obs, r.slow || time.Since(start) > 200*time.Millisecond, crash
 }
 
 // ---------------------------------------------------------------------------------------------
@@ -558,6 +558,7 @@ type loopVerdict struct {
 	impl              interface{}
 	inexact           bool
 	skipped           bool
+	hits              map[string]bool
 }
 
 // evalLoop runs the case on the real code and the model and returns the most severe failure ("" kind = none).
@@ -625,7 +626,137 @@ func evalLoop(c *rig.Ctx, h Loop) loopVerdict {
 				what: fmt.Sprintf("first difference after op %d (%s), %s: model %s, code %s", k, rig.Canon(h.Ops[k]), part, rig.Canon(mo), rig.Canon(impl[k]))}
 		}
 	}
-	return loopVerdict{inexact: inexact}
+	return loopVerdict{inexact: inexact, hits: loopHits(h, impl[:n])}
+}
+
+// loopHits: which situations of the composition the history reached on the REAL code (for the histogram)
+func loopHits(h Loop, obs []LObs) map[string]bool {
+	hits := map[string]bool{}
+	recs := func(o LObs) map[[2]int]int64 {
+		m := map[[2]int]int64{}
+		for _, e := range o.Srv.Ups {
+			for _, q := range e.Recs {
+				m[[2]int{e.U, int(q[0])}] = q[1]
+			}
+		}
+		return m
+	}
+	for k := 1; k < len(obs); k++ {
+		op, prev, cur := h.Ops[k], obs[k-1], obs[k]
+		pr, cr := recs(prev), recs(cur)
+		switch op.Op {
+		case "tick":
+			for key := range pr {
+				if _, ok := cr[key]; !ok && len(cur.Srv.Stores) >= len(prev.Srv.Stores) {
+					hits["hit:record-reclaimed-by-time-out-pass"] = true
+				}
+			}
+			if len(cur.Srv.Stores) != len(prev.Srv.Stores) {
+				hits["hit:store-follows-elector-at-leaderCheck"] = true
+			}
+		case "unknown":
+			for key := range pr {
+				if _, ok := cr[key]; !ok {
+					hits["hit:record-reclaimed-by-unknown-pass"] = true
+				}
+			}
+		case "lose":
+			if len(pr) > len(cr) {
+				hits["hit:store-with-records-discarded"] = true
+			}
+		case "gain":
+			if len(cr) > len(pr) {
+				hits["hit:records-reloaded-from-API"] = true
+			} else if len(cur.Srv.Stores) > len(prev.Srv.Stores) {
+				hits["hit:store-created-empty"] = true
+			}
+		case "report":
+			if rig.Canon(prev) == rig.Canon(cur) {
+				hits["hit:report-changed-nothing(refused/silent/same)"] = true
+			}
+			key := [2]int{op.U, -1}
+			if op.G < len(cur.Gws) {
+				key[1] = cur.Gws[op.G].ID
+			}
+			if a, ok := pr[key]; ok {
+				if b, ok2 := cr[key]; ok2 && b > a {
+					hits["hit:quota-grew"] = true
+				} else if ok2 && b < a {
+					hits["hit:quota-shrank"] = true
+				}
+			} else if _, ok2 := cr[key]; ok2 {
+				hits["hit:first-record(new or returning instance)"] = true
+				for _, g := range prev.Gws {
+					if g.ID == key[1] && g.Alive {
+						for _, x := range g.Ups {
+							if x.U == op.U && x.Raw != nil {
+								hits["hit:returning-instance-claims-quota-without-record"] = true
+							}
+						}
+					}
+				}
+			}
+		}
+		for _, e := range cur.Srv.Ups {
+			holders, sum := 0, int64(0)
+			for _, g := range cur.Gws {
+				for _, x := range g.Ups {
+					if g.Alive && x.U == e.U && x.Choice == 2 && x.Raw != nil && cr[[2]int{e.U, g.ID}] == *x.Raw && x.Lim != nil {
+						holders++
+						sum += *x.Lim
+					}
+				}
+			}
+			// observation (outside the theorem's hypothesis): all live gateways that hand out a remote limiter, whether or not the
+			// server still has their quota on record (store discarded at a hand-over, record reclaimed during a partition)
+			all, ones := int64(0), int64(0)
+			for _, g := range cur.Gws {
+				for _, x := range g.Ups {
+					if g.Alive && x.U == e.U && x.Choice == 2 && x.Lim != nil {
+						all += *x.Lim
+					}
+				}
+			}
+			for _, q := range e.Recs {
+				if q[1] == 1 {
+					ones++
+				}
+			}
+			if all > e.Total+ones && e.RecSum <= e.Total {
+				hits["observed:gateways-holding-quotas-without-record-together-enforce-more-than-the-limit(transient, outside the hypothesis)"] = true
+			}
+			if holders >= 2 {
+				hits["hit:system-clause-applies(>=2 gateways enforce what is on record for them)"] = true
+				if sum >= e.Total {
+					hits["hit:system-sum-reaches-the-limit"] = true
+				}
+			}
+			if e.RecSum > e.Total {
+				hits["hit:over-committed-after-lowering"] = true
+			}
+			for _, q := range e.Recs {
+				if q[1] == 1 {
+					hits["hit:instance-held-at-minimum-1"] = true
+				}
+			}
+		}
+		for _, g := range cur.Gws {
+			for _, x := range g.Ups {
+				if g.Alive && x.Choice == 1 && x.Raw != nil {
+					hits["hit:fallback-to-local-while-holding-a-quota"] = true
+				}
+				if g.Alive && x.Choice == 2 && x.Raw != nil && x.Lim != nil && *x.Lim < *x.Raw {
+					hits["hit:quota-bounded-by-own-view"] = true
+				}
+				for _, e := range cur.Srv.Ups {
+					if g.Alive && e.U == x.U && x.View != nil && *x.View != e.Total {
+						hits["hit:gateway-and-server-disagree-on-limit"] = true
+					}
+				}
+			}
+		}
+	}
+	return hits
 }
 
 // settle counts what the verdict says and records the failure (if any and asked to); true = no failure
@@ -636,6 +767,9 @@ func settle(c *rig.Ctx, h Loop, v loopVerdict, record bool) bool {
 	}
 	if v.inexact {
 		c.Count("loop:float-tail-not-exact(history compared up to that report)")
+	}
+	for k := range v.hits {
+		c.Count(k)
 	}
 	if v.kind == "" {
 		return true
